@@ -355,7 +355,9 @@ class EagerContractionRecursive(Contract):
         leaks into the remaining operands' inputs and the value is preserved;
     (b) the untouched operands keep their order, the combined pair is replaced in the position of its first member;
     (c) variables still in reduced_vars were not summed anywhere.
-    Otherwise it returns None. reduce / pairwise Contraction nondeterministically evaluate or stay lazy.
+    Otherwise it returns None; in particular for a (reduce, binary) pair that is not declared distributive it ALWAYS returns None
+    (pushing sum_i into x + T[i] would lose the multiplicity of x).  reduce / pairwise Contraction nondeterministically
+    evaluate or stay lazy.
     structure bound: <= 3 operands, <= 2 reduced variables, every incidence pattern."""
 
     props = ("C02", "C08", "C01")
@@ -363,15 +365,21 @@ class EagerContractionRecursive(Contract):
     qualname = "eager_contraction_generic_recursive"
     total = True
     max_paths = 3000
-    mutants = (("pairs may sum a variable shared with a third operand", "if count == 2)", "if count >= 2)"), ("leaf push-down for variables in two operands", "if count == 1)", "if count <= 2)"))
+    mutants = (("reductions pushed down for any pair of ops (the pinned-tree defect)", "and (red_op, bin_op) not in DISTRIBUTIVE_OPS", "and False"), ("pairs may sum a variable shared with a third operand", "if count == 2)", "if count >= 2)"), ("leaf push-down for variables in two operands", "if count == 1)", "if count <= 2)"))
 
     def structures(self, tier):
         subsets = ["", "u", "v", "uv"]
         for n in (2, 3):
             for inc in itertools.product(subsets, repeat=n):
                 yield "operands=%s" % ([i or "-" for i in inc],), inc
+        for pair in ("add/add", "mul/add"):  # pairs that are NOT declared distributive: reductions must not be pushed down
+            for inc in (("u", ""), ("u", "u"), ("", "u", "uv")):
+                yield "non-distributive %s,operands=%s" % (pair, [i or "-" for i in inc]), inc + (pair,)
 
     def build(self, p, inc):
+        pair = None
+        if inc and "/" in inc[-1]:
+            pair, inc = inc[-1], inc[:-1]
         terms = tuple(Opnd("t%d" % i, vs) for i, vs in enumerate(inc))
         rv = frozenset(VTOKS[v] for v in "uv")
         stays_lazy = {}
@@ -413,11 +421,14 @@ class EagerContractionRecursive(Contract):
         from collections import Counter
 
         ctx.ConRec = ConRec
-        ctx.namespace = dict(Counter=Counter, frozenset=frozenset, list=list, tuple=tuple, enumerate=enumerate, normalize=Normalize, Contraction=Contraction, ops=OpsNS)
-        ctx.args = (ADD, MUL, rv, terms)
+        ctx.namespace = dict(Counter=Counter, frozenset=frozenset, list=list, tuple=tuple, enumerate=enumerate, normalize=Normalize, Contraction=Contraction, ops=OpsNS, DISTRIBUTIVE_OPS=DIST)
+        ctx.pair = pair
+        ctx.args = {None: (ADD, MUL, rv, terms), "add/add": (ADD, ADD, rv, terms), "mul/add": (MUL, ADD, rv, terms)}[pair]
         return ctx
 
     def ensures(self, ctx, result):
+        if ctx.pair is not None:
+            return [("non_distributive_pair_is_left_to_the_normal_form_rules", result is None)]
         if result is None:
             return [("declines_or_rewrites", True)]
         ok = isinstance(result, ctx.ConRec) and result.red is ADD and result.bo is MUL
